@@ -36,6 +36,7 @@ FLABEL = {'snapshot_name': 'SNAPSHOT NAME', 'snapshot_date': 'SNAPSHOT DATE', 'p
 SDEFAULT = ['name', 'note', 'timestamp', 'file_count', 'size']
 FDEFAULT = ['snapshot_date', 'path', 'chunk_count', 'size', 'mtime']
 EMPTY = '--'
+CMD_TIMEOUT = 120      # a command that hangs is reported, not waited for
 
 REL_PATHS = ['a.txt', 'b.log', 'dir/a.txt', 'dir/b.log', 'dir/sub/c.dat', 'x_y.txt', 'z', 'data.bin', 'notes.md', 'dir/sub/deep/e.txt']
 SIZES = [0, 0, 1, 15, 64, 100, 999, 1000, 1001, 1005, 1015, 1125, 1375, 1995, 2500, 4321, 12345]
@@ -293,7 +294,7 @@ class Exec:
             truth[str(f.resolve())] = (data, v['mtime_ns'])
         r = await self.unlocked(spec['user'])
         self.script.append(datetime(*spec['ts']))
-        res = await r.snapshot(paths=[src], note=spec['note'])
+        res = await asyncio.wait_for(r.snapshot(paths=[src], note=spec['note']), CMD_TIMEOUT)
         if self.script:
             raise RuntimeError('snapshot() did not read the clock through datetime.utcnow()')
         sid = i + 1
@@ -361,7 +362,7 @@ class Exec:
                     self.nout += 1
                     out.mkdir()
                     try:
-                        res = await r.restore(snapshot_regex=self.combine(sre), file_regex=self.combine(fre), path=out)
+                        res = await asyncio.wait_for(r.restore(snapshot_regex=self.combine(sre), file_regex=self.combine(fre), path=out), CMD_TIMEOUT)
                         ob['files'] = list(res.files)
                         tree = {}
                         for f in sorted(out.rglob('*')):
@@ -374,12 +375,12 @@ class Exec:
                 elif op == 'ls':
                     cols = None if q['cols'] is None else self.SC.parse_list(' , '.join(q['cols']))
                     with contextlib.redirect_stdout(buf):
-                        await r.list_snapshots(snapshot_regex=self.combine(sre), header=q['header'], columns=cols)
+                        await asyncio.wait_for(r.list_snapshots(snapshot_regex=self.combine(sre), header=q['header'], columns=cols), CMD_TIMEOUT)
                     ob['stdout'] = buf.getvalue()
                 else:
                     cols = None if q['cols'] is None else self.FC.parse_list(','.join(q['cols']))
                     with contextlib.redirect_stdout(buf):
-                        await r.list_files(snapshot_regex=self.combine(sre), file_regex=self.combine(fre), header=q['header'], columns=cols)
+                        await asyncio.wait_for(r.list_files(snapshot_regex=self.combine(sre), file_regex=self.combine(fre), header=q['header'], columns=cols), CMD_TIMEOUT)
                     ob['stdout'] = buf.getvalue()
             except Exception as e:
                 ob['error'] = f'{type(e).__name__}: {str(e)[:160]}'
@@ -431,7 +432,7 @@ class Exec:
             before = dict(self.backend.objects)
             r = await self.unlocked(caller)
             try:
-                await r.delete_snapshots(list(names), confirm=False)
+                await asyncio.wait_for(r.delete_snapshots(list(names), confirm=False), CMD_TIMEOUT)
                 ob['ok'] = True
             except self.ReplicatError as e:
                 ob['ok'] = False
@@ -881,8 +882,8 @@ def check_plans(plans, scratch: Path, rep: Report, with_model=True):
 
 def run(ctx) -> Report:
     rep = Report(rule=RULE)
-    n = ctx.scale(20, 220)
-    nbig = ctx.scale(1, 6)
+    n = ctx.scale(56, 700)
+    nbig = ctx.scale(2, 12)
     plans = [gen_plan(ctx.rng, i, big=i < nbig) for i in range(n)]
     check_plans(plans, ctx.scratch, rep)
     probe_regex_combination(ctx.scratch, rep)
